@@ -102,8 +102,8 @@ pub fn run(run: &Run) {
         rep.classes = vec![("grid-cell", 256)];
         rep
     });
-    run.random("encode", run.cases(40_000, 1_000_000), 0.5, || g::message(g::MsgParams::default()).prop_map(Case::Encode), check);
-    run.random("decode", run.cases(150_000, 4_000_000), 0.4, decode_strategy, check);
+    run.random("encode", run.cases(150_000, 2_000_000), 0.5, || g::message(g::MsgParams::default()).prop_map(Case::Encode), check);
+    run.random("decode", run.cases(400_000, 8_000_000), 0.4, decode_strategy, check);
 }
 
 pub fn replay(section: &str, case: &Json) -> Option<CheckResult> {
